@@ -235,6 +235,21 @@ func c28Run(c c28Case) *eng.Fail {
 				if ir.ShowEffect(ap) != expAp {
 					return &eng.Fail{Sig: "EffectApply result", What: fmt.Sprintf("EffectApply(%s) = %s, expected %s", ir.ShowEffect(ef), ir.ShowEffect(ap), expAp), Case: c}
 				}
+				// EffectsApply on the whole list, twice: results exact, the caller's list untouched
+				before := []string{ir.ShowEffect(effs[0]), ir.ShowEffect(effs[1])}
+				for round := 0; round < 2; round++ {
+					var aps []expr.Effect
+					if p, stack := eng.Catch(func() { aps = exprtransform.EffectsApply(effs, wrap) }); p != nil {
+						return &eng.Fail{Sig: "EffectsApply panic " + eng.PanicSite(stack), What: fmt.Sprint(p), Case: c}
+					}
+					if len(aps) != 2 || ir.ShowEffect(aps[0]) != ir.ShowEffect(exprtransform.EffectApply(expr.NewRegStore(e, "k1", ew), wrap)) ||
+						ir.ShowEffect(aps[1]) != ir.ShowEffect(exprtransform.EffectApply(expr.NewMemStore(e, "memk", o, ew), wrap)) {
+						return &eng.Fail{Sig: "EffectsApply result", What: fmt.Sprintf("EffectsApply (round %d) of [%s; %s] gives %d effects: %v", round, before[0], before[1], len(aps), aps), Case: c}
+					}
+					if ir.ShowEffect(effs[0]) != before[0] || ir.ShowEffect(effs[1]) != before[1] {
+						return &eng.Fail{Sig: "EffectsApply alters-input", What: fmt.Sprintf("EffectsApply changed the list it was given: [%s; %s] became [%s; %s]", before[0], before[1], ir.ShowEffect(effs[0]), ir.ShowEffect(effs[1])), Case: c}
+					}
+				}
 				many := exprtransform.ExprsMany(effs)
 				if len(many) != 3 {
 					return &eng.Fail{Sig: "ExprsMany count", What: fmt.Sprintf("ExprsMany lists %d expressions for a RegStore+MemStore", len(many)), Case: c}
@@ -247,7 +262,7 @@ func c28Run(c c28Case) *eng.Fail {
 
 func init() {
 	checks["C28"] = eng.Check{
-		Rule: "On a space of ~6k trees (all 1-internal-node trees over 6 leaves x widths 1,2 x two memory keys; all 2-internal-node trees over 2 leaves; deep self-nested trees): Equal on ALL ordered pairs vs. equality of an independent canonical rendering; FindAll for each of the 5 node kinds vs. own pre-order walk; ReplaceAll for 5 kinds x 5 replacement functions (none/all/some/wrap/ignored) vs. own bottom-up model incl. the multiset of nodes f was applied to; Exprs/ExprsMany/EffectApply on RegStore/MemStore of every tree x 3 widths. Non-trivial = Equal pair with equal kinds and widths; find/replace with at least one match.",
+		Rule: "On a space of ~6k trees (all 1-internal-node trees over 6 leaves x widths 1,2 x two memory keys; all 2-internal-node trees over 2 leaves; deep self-nested trees): Equal on ALL ordered pairs vs. equality of an independent canonical rendering; FindAll for each of the 5 node kinds vs. own pre-order walk; ReplaceAll for 5 kinds x 5 replacement functions (none/all/some/wrap/ignored) vs. own bottom-up model incl. the multiset of nodes f was applied to; Exprs/ExprsMany/EffectApply/EffectsApply (applied twice, input list must stay untouched) on RegStore/MemStore of every tree x 3 widths. Non-trivial = Equal pair with equal kinds and widths; find/replace with at least one match.",
 		Run: func(r *eng.Run) {
 			ts := c28Space.get()
 			n := len(ts)
